@@ -310,8 +310,7 @@ theorem pstep_refines (bc : Bool) (s : Store) (k : Memo) (op : Op) (hc : Consist
     | error e => exact ⟨rfl, rfl, c1⟩
   | remove p => exact ⟨rfl, rfl, consistent_del k s p hc⟩
 
-/-- **refinement with the finder cache**: from a fresh store and a consistent cache, as long as no write makes a cached
-module stale and no operation changes the kind of a location under a cached finder, the process observes exactly what the
+/-- **refinement with the finder cache**: from a fresh store and a consistent cache, as long as no operation changes the kind of a location under a cached finder, the process observes exactly what the
 logical store `Path → Content` observes -/
 theorem prun_refines (bc : Bool) (h : List Op) : ∀ (s : Store) (k : Memo), Fresh s → Consistent k s →
     pokRun bc s k h = true → (prun bc s k h).2.2 = (lrun (abs s) h).2 := by
@@ -320,8 +319,8 @@ theorem prun_refines (bc : Bool) (h : List Op) : ∀ (s : Store) (k : Memo), Fre
   | cons op h ih =>
     intro s k hf hc hok
     simp only [pokRun, Bool.and_eq_true] at hok
-    obtain ⟨p1, p2, p3⟩ := pstep_refines bc s k op hc hok.1.2
-    obtain ⟨h1, h2, h3⟩ := step_refines bc s op hf hok.1.1
+    obtain ⟨p1, p2, p3⟩ := pstep_refines bc s k op hc hok.1
+    obtain ⟨h1, h2, h3⟩ := step_refines bc s op hf
     have := ih (pstep bc s k op).1 (pstep bc s k op).2.1 (by rw [p1]; exact h3) p3 hok.2
     simp only [prun, lrun]
     rw [this, p2, h1, p1, h2]
